@@ -142,7 +142,7 @@ export function wrapContext(b, name, jsx, ctx) {
 }
 
 /** the JSX is evaluated several times (loop body / callback); each resulting vnode must keep its own cached call child */
-function buildLoop(host, ctx, vs) {
+export function buildLoop(host, ctx, vs) {
   const b = new ModuleBuilder();
   const tag = hostTag(b, host);
   b.env.globals.cf0 = { v: { k: 'counterfn', id: 'cf0' }, log: false };
@@ -219,6 +219,32 @@ function findThrow(c, path = '$') {
   return null;
 }
 
+/** loop families: the k-th evaluation of the JSX must deliver the k-th value of its call child to its own vnode */
+export async function checkLoopVariant(P, spec, rec, v, base) {
+  const liveLoop = (r) => {
+    const e = r.thunks[0];
+    if (e.A.error) return violated({ ...base, oracle: 'thunk-evaluates', sig: `${P}/runtime-error/${e.A.error.name}/${spec.ctx}`, detail: e.A.error });
+    const arr = e.A.raw;
+    if (!Array.isArray(arr) || arr.length !== 3) return inconclusive({ ...base, reason: 'loop thunk did not return 3 vnodes' });
+    const wrapped = (v.options || {}).enableObjectSlots !== false;
+    const got = arr.map((vn) => { try { const ch = vn.children; const fn = typeof ch === 'function' ? ch : ch && ch.default; return typeof fn === 'function' ? JSON.stringify(fn()) : 'no-slot'; } catch (ex) { return 'threw ' + ex.name; } });
+    // with object slots on, each vnode's call child was evaluated once at its creation: cf0#1, cf0#2, cf0#3
+    if (wrapped) {
+      const exp = ['["cf0#1"]', '["cf0#2"]', '["cf0#3"]'];
+      if (JSON.stringify(got) !== JSON.stringify(exp)) return violated({ ...base, oracle: 'each evaluation of the JSX keeps its own cached call child', sig: `${P}/loop/slot-value-shared-or-wrong/${spec.ctx}`, detail: { got, expected: exp } });
+    } else if (got.some((x) => x.startsWith('threw') || x === 'no-slot')) {
+      return violated({ ...base, oracle: 'slots of loop-created vnodes evaluate', sig: `${P}/loop/slot-error/${spec.ctx}`, detail: { got } });
+    }
+    return held({ ...base, events: { vnodes_from_loop: 3, slot_invocations: 3, creation_probe_events: 3 }, shape: got.join(',') });
+  };
+  const r = await evalSemantic(spec, rec, v.options, { live: liveLoop, runRef: false });
+  if (r.error) {
+    const harness = ['HarnessUnknownModule', 'HarnessError', 'MockUnimplemented'].includes(r.error.name) || r.error.phase === 'exec-declined';
+    return harness ? inconclusive({ ...base, reason: short(r.error) }) : violated({ ...base, oracle: 'module-evaluates', sig: `${P}/module-error/${r.error.phase}/${r.error.name}/${spec.ctx}`, detail: r.error });
+  }
+  return r.live;
+}
+
 export async function check(group, records) {
   const out = [];
   const spec = group.spec;
@@ -228,30 +254,7 @@ export async function check(group, records) {
     if (!rec || rec.status !== 'ok') { out.push(inconclusive({ ...base, reason: `transform status ${rec && rec.status}` })); continue; }
     if (rec.n_err > 0) { out.push(violated({ ...base, oracle: 'no-diagnostic-on-valid-input', sig: 'C03/unexpected-diagnostic', detail: rec.diags })); continue; }
     const th = spec.thunks[0];
-    if (spec.loop) {
-      const liveLoop = (r) => {
-        const e = r.thunks[0];
-        if (e.A.error) return violated({ ...base, oracle: 'thunk-evaluates', sig: `C03/runtime-error/${e.A.error.name}/${spec.ctx}`, detail: e.A.error });
-        const arr = e.A.raw;
-        if (!Array.isArray(arr) || arr.length !== 3) return inconclusive({ ...base, reason: 'loop thunk did not return 3 vnodes' });
-        const wrapped = (v.options || {}).enableObjectSlots !== false;
-        const got = arr.map((vn) => { try { const ch = vn.children; const fn = typeof ch === 'function' ? ch : ch && ch.default; return typeof fn === 'function' ? JSON.stringify(fn()) : 'no-slot'; } catch (ex) { return 'threw ' + ex.name; } });
-        // with object slots on, each vnode's call child was evaluated once at its creation: cf0#1, cf0#2, cf0#3
-        if (wrapped) {
-          const exp = ['["cf0#1"]', '["cf0#2"]', '["cf0#3"]'];
-          if (JSON.stringify(got) !== JSON.stringify(exp)) return violated({ ...base, oracle: 'each evaluation of the JSX keeps its own cached call child', sig: `C03/loop/slot-value-shared-or-wrong/${spec.ctx}`, detail: { got, expected: exp } });
-        } else if (got.some((x) => x.startsWith('threw') || x === 'no-slot')) {
-          return violated({ ...base, oracle: 'slots of loop-created vnodes evaluate', sig: `C03/loop/slot-error/${spec.ctx}`, detail: { got } });
-        }
-        return held({ ...base, events: { vnodes_from_loop: 3, slot_invocations: 3 }, shape: got.join(',') });
-      };
-      const r = await evalSemantic(spec, rec, v.options, { live: liveLoop, runRef: false });
-      if (r.error) {
-        const harness = ['HarnessUnknownModule', 'HarnessError', 'MockUnimplemented'].includes(r.error.name) || r.error.phase === 'exec-declined';
-        out.push(harness ? inconclusive({ ...base, reason: short(r.error) }) : violated({ ...base, oracle: 'module-evaluates', sig: `C03/module-error/${r.error.phase}/${r.error.name}/${spec.ctx}`, detail: r.error }));
-      } else out.push(r.live);
-      continue;
-    }
+    if (spec.loop) { out.push(await checkLoopVariant('C03', spec, rec, v, base)); continue; }
     const live = (r) => {
       const e = r.thunks[0];
       if (e.B.error) return inconclusive({ ...base, reason: 'reference failed: ' + short(e.B.error) });
